@@ -22,7 +22,8 @@ from .core import AnalysisError, src_of
 STALE = '\u2020'          # marks an assumed test whose operands may have changed since (never part of source text)
 
 PURE_FUNCS = {'len', 'str', 'int', 'float', 'max', 'min', 'abs', 'isinstance', 'bool', 'chr', 'ord', 'round', 'repr', 'tuple', 'list', 'dict',
-              'set', 'sorted', 'reversed', 'hasattr', 'getattr', 'range', 'enumerate', 'zip', 'any', 'all', 'sum', 'type', 'hex', 'callable', 'divmod'}
+              'set', 'sorted', 'reversed', 'hasattr', 'getattr', 'range', 'enumerate', 'zip', 'any', 'all', 'sum', 'type', 'hex', 'callable', 'divmod',
+              'filter', 'map'}
 PURE_METHODS = {'get', 'lower', 'upper', 'startswith', 'endswith', 'join', 'strip', 'lstrip', 'rstrip', 'split', 'rjust', 'ljust', 'zfill', 'find',
                 'index', 'count', 'replace', 'format', 'keys', 'values', 'items', 'isdigit', 'isalpha', 'group', 'title', 'center', 'splitlines'}
 
